@@ -25,6 +25,7 @@ CFGS = {
 WITNESS = {
     'prefix_kvs': ('MC_AppLifecycle_prefix_kvs.cfg', {'accts': [1], 'keys': ['k1']}),
     'prefix_hdr': ('MC_AppLifecycle_prefix_hdr.cfg', {'accts': [1], 'keys': ['k1']}),
+    'prefix_trim': ('MC_AppLifecycle_prefix_trim.cfg', {'accts': [1], 'keys': ['k1']}),
 }
 PAR = {'q': 'MC_ParVerify_q.cfg', 'b': 'MC_ParVerify_b.cfg', 'w3': 'MC_ParVerify_w3.cfg'}
 
@@ -32,7 +33,7 @@ PAR = {'q': 'MC_ParVerify_q.cfg', 'b': 'MC_ParVerify_b.cfg', 'w3': 'MC_ParVerify
 def nontrivial(tr):
     """contains a restart, a key-value or invalid transaction, or a contract transaction"""
     for s in tr['steps']:
-        if s['a'] == 'Restart':
+        if s['a'] in ('Restart', 'CrashCommit'):
             return True
         if s['a'] == 'Execute':
             if any(t['c'] != 'xfer' for t in s['args'][0]):
@@ -52,12 +53,16 @@ def atx(c, a, n, k='-', v='-'):
     return {'c': c, 'a': a, 'n': n, 'k': k, 'v': v}
 
 
-def hand_trace(tid, blocks, restarts=(), cfg=None):
+def hand_trace(tid, blocks, restarts=(), cfg=None, crashes=None):
     """engine-made behaviour (oracle mode): blocks = list of tx lists; restart after the heights in `restarts`;
     a negative entry -h restarts between Execute and Commit of height h (the block is executed again)."""
     t = {'id': tid, 'cfg': dict(cfg or {'accts': [1, 2], 'keys': ['k1', 'k2']}, mode='oracle'), 'init': None, 'steps': []}
     for h, b in enumerate(blocks, 1):
         t['steps'].append({'a': 'Execute', 'args': [b], 'post': None})
+        if crashes and h in crashes:
+            # crash inside OnCommit after crashes[h] groups of durable writes; the decided block is executed again
+            t['steps'].append({'a': 'CrashCommit', 'args': [crashes[h]], 'post': None})
+            t['steps'].append({'a': 'Execute', 'args': [b], 'post': None})
         if -h in restarts:
             t['steps'].append({'a': 'Restart', 'args': [], 'post': None})
             t['steps'].append({'a': 'Execute', 'args': [b], 'post': None})
@@ -92,7 +97,7 @@ def run(ctx, replay=None):
                              workers=1 if dump else W, timeout=400 if quick else 2400)
         if dump:
             # vacuity: every action of the specification fires (Query is exercised by the other configurations)
-            vac = [a for a, (d, t) in r.coverage.items() if t == 0 and a not in ('Query', 'Next')]
+            vac = [a for a, (d, t) in r.coverage.items() if t == 0 and a not in ('Query', 'Next', 'CrashCommit')]
             ctx.cov['action_coverage'] = {a: list(v) for a, v in r.coverage.items()}
             if vac or not r.coverage:
                 ctx.inconclusive.append('vacuous actions in AppLifecycle: %s' % vac)
@@ -183,6 +188,16 @@ def run(ctx, replay=None):
         if any(s['a'] == 'Execute' and any(x['c'] == 'admok' for x in s['args'][0]) for s in t['steps']):
             t['cfg']['isolated_reference'] = True
     ctx.cov['isolated_reference_traces'] = sum(1 for t in traces if t['cfg'].get('isolated_reference'))
+
+    # 8. a crash inside OnCommit (durable-write failpoints between the trie commit, the receipts/kv batch, the key-history
+    #    batch, "lastreceipts" and "lastblock"), restart, the decided block executed again: on a brand-new key, on a key
+    #    with history, at every point; compared with the replicas that never crashed
+    kvchain = [[atx('kv', 1, 0, 'k1', 'a'), atx('xfer', 2, 0)], [atx('kv', 1, 1, 'k1', 'b'), atx('kv', 2, 1, 'k2', 'a')],
+               [atx('kv', 2, 2, 'k2', 'b'), atx('kv', 1, 2, 'k1', 'a'), atx('kv', 1, 3, 'k1', 'b')]]
+    for j in (1, 2, 3, 4):
+        traces.append(hand_trace('crash-in-commit-newkey-%d' % j, kvchain, (), crashes={1: j}))
+    traces.append(hand_trace('crash-in-commit-later', kvchain, (2,), crashes={2: 3, 3: 4}))
+    traces.append(hand_trace('crash-in-commit-twice', kvchain, (), crashes={1: 3, 3: 3}))
 
     # binding self-test
     probe = None
